@@ -398,42 +398,55 @@ def flw2_compaction_covers_names(ctx):
 
 # ------------------------------------------------------------------------------------ TBL-6 / WHO-3 / ORD-7
 def tbl6_ingestion_siblings(ctx):
-    ctx.rule('TBL-6', 'the three ingestion siblings take buffer then column_names and record every '
-                      'incoming name before pushing the data', floor=3)
+    ctx.rule('TBL-6', 'the three ingestion siblings record every incoming column name (under the '
+                      'buffer lock and the name-set lock) before they push the data', floor=3)
     P = ctx.P
     lm = lockmodel(ctx)
     for name, push in (('ingest', 'Buffer::push_row'), ('ingest_homogeneous', 'Buffer::push_typed_cols'),
                        ('ingest_heterogeneous', 'Buffer::push_untyped_cols')):
         F = P.one('mem_store::table::Table::' + name)
         cfg = CFG(F)
-        a = lm.analyse(F)
-        order = [lid for bid, (t, lid, mode) in sorted(a['acq'].items())]
         pushes = calls_matching(F, lambda n, p=push: n.endswith(p))
+        if not pushes:
+            ctx.violation('TBL-6', 'Table::%s' % name, 'sibling does not push into the buffer',
+                          where(F.blocks[0].term))
+            continue
+        pb = pushes[0][0]
+        held = ids(lm.must_at(F, pb.id, None))
+        # where are the names recorded: inline or in a helper called before the push
+        recorders = []
         inserts = calls_matching(F, lambda n: n.endswith('HashSet::insert'))
-        good = order[:2] == ['Table.buffer', 'Table.column_names'] and bool(pushes) and bool(inserts)
-        held = set()
-        if pushes:
-            held = ids(lm.must_at(F, pushes[0][0].id, None))
-            good = good and {'Table.buffer', 'Table.column_names'} <= held
-            # the name loop is finished before the push: push not inside the loop of the insert
-            hdrs = [h for h in cfg.loop_headers() if inserts and inserts[0][0].id in cfg.natural_loop(h)]
-            good = good and hdrs and all(pushes[0][0].id not in cfg.natural_loop(h) for h in hdrs) and \
-                all(cfg.dominates(h, pushes[0][0].id) for h in hdrs)
+        if inserts:
+            hdrs = [h for h in cfg.loop_headers() if inserts[0][0].id in cfg.natural_loop(h)]
+            done_before = bool(hdrs) and all(pb.id not in cfg.natural_loop(h) and cfg.dominates(h, pb.id) for h in hdrs)
+            recorders.append(('inline', done_before, 'Table.column_names' in held))
+        for (cb, kind, bid) in P.callgraph().get(F.name, []):
+            if kind != 'call' or not cb.name.startswith('mem_store::table::'):
+                continue
+            acq = lm.summaries()['acquires'].get(cb.name, {})
+            if 'Table.column_names' in acq and calls_matching(cb, lambda n: n.endswith('HashSet::insert')):
+                before = cfg.dominates(bid, pb.id) and bid != pb.id
+                recorders.append(('helper %s' % cb.name.split('::')[-1], before, True))
+        good = 'Table.buffer' in held and any(r[1] and r[2] for r in recorders)
         ctx.check('TBL-6', 'Table::%s' % name, bool(good),
-                  'locks %s; names inserted in a loop that completes before %s (held at push: %s)'
-                  % (order, push, sorted(held)), where(pushes[0][1]) if pushes else where(F.blocks[0].term))
+                  'push happens with %s held; names recorded by %s'
+                  % (sorted(held), [(r[0], 'before push' if r[1] else 'NOT before push') for r in recorders] or 'nobody'),
+                  where(pushes[0][1]))
 
 
 WHO3_TABLE = {'mem_store::table::Table::new', 'mem_store::table::Table::init_column_names',
               'mem_store::table::Table::ingest', 'mem_store::table::Table::ingest_homogeneous',
               'mem_store::table::Table::ingest_heterogeneous'}
+WHO3_INIT = {'mem_store::table::Table::new', 'mem_store::table::Table::init_column_names'}
 
 
 def who3_column_names_writers(ctx):
     ctx.rule('WHO-3', 'Table.column_names is written only by the constructor, the lazy initialiser '
-                      'and the three ingestion siblings', floor=4)
+                      'and the three ingestion siblings (or helpers only they call); only the '
+                      'constructor and the initialiser may turn "not loaded" (None) into a set', floor=3)
     P = ctx.P
     lm = lockmodel(ctx)
+    callers = P.callers()
     for b in P.fn_bodies():
         if b.crate != 'locustdb':
             continue
@@ -442,8 +455,35 @@ def who3_column_names_writers(ctx):
                 continue
             if re.match(r'^std::sync::(?:poison::)?RwLock::<.*>::write$', t.func or '') and \
                     lm.lock_id(b, t.args[0]) == 'Table.column_names':
-                ctx.check('WHO-3', 'write-lock|%s' % b.name, b.name in WHO3_TABLE,
-                          'Table.column_names write-locked in %s' % b.name, where(t))
+                okw = b.name in WHO3_TABLE
+                via = ''
+                if not okw:
+                    cs = {c for (c, kind, _b) in callers.get(b.name, [])}
+                    okw = bool(cs) and cs <= WHO3_TABLE
+                    via = ' (helper called only from %s)' % sorted(x.split('::')[-1] for x in cs)
+                ctx.check('WHO-3', 'write-lock|%s' % b.name, okw,
+                          'Table.column_names write-locked in %s%s' % (b.name, via), where(t))
+                # None -> Some transitions
+                du = DefUse(b)
+                for blk2, t2 in b.calls():
+                    if blk2.cleanup:
+                        continue
+                    n2 = norm_callee(t2.func)
+                    if re.search(r'Option::(insert|get_or_insert_with|get_or_insert|replace|get_or_insert_default)$', n2) \
+                            and 'HashSet<std::string::String>' in (t2.func or ''):
+                        ctx.check('WHO-3', 'none-to-some|%s' % b.name, b.name in WHO3_INIT,
+                                  '%s turns an unloaded name set into a loaded one without asking the '
+                                  'catalogue: columns that exist only in partitions on disk are '
+                                  'forgotten (listed twice later, dropped by compaction)'
+                                  % n2.split('::')[-1], where(t2))
+                for bid, blk3 in b.blocks.items():
+                    if blk3.cleanup:
+                        continue
+                    for s3 in blk3.stmts:
+                        if s3.kind == 'assign' and s3.lhs.startswith('(*') and \
+                                re.search(r'Option::<std::collections::HashSet<std::string::String>>::Some\(', s3.rhs):
+                            ctx.check('WHO-3', 'none-to-some|%s' % b.name, b.name in WHO3_INIT,
+                                      'the name set is (re)initialised in %s' % b.name, where(s3))
     for b in P.fn_bodies():
         if b.crate != 'locustdb':
             continue
@@ -452,6 +492,35 @@ def who3_column_names_writers(ctx):
                 if s.kind == 'assign' and re.match(r'^mem_store::table::Table \{', s.rhs or '') and not blk.cleanup:
                     ctx.check('WHO-3', 'literal|%s' % b.name, b.name in WHO3_TABLE,
                               'Table constructed in %s' % b.name, where(s))
+
+
+def ord12_names_loaded_before_ingest(ctx):
+    ctx.rule('ORD-12', 'every function of the database object that appends a batch to a table first '
+                       'makes sure the table\'s name set is loaded from the catalogue', floor=2)
+    P = ctx.P
+    n = 0
+    for b in P.fn_bodies():
+        if b.crate != 'locustdb' or not b.name.startswith('scheduler::inner_locustdb::InnerLocustDB::'):
+            continue
+        ing = calls_matching(b, lambda x: x in ('mem_store::table::Table::ingest_homogeneous',
+                                                'mem_store::table::Table::ingest_heterogeneous'))
+        if not ing:
+            continue
+        if any(a in b.name for a in ('::ingest_homogeneous', '::ingest_heterogeneous')):
+            # thin forwarding wrappers (dead code): create_if_empty gives a fresh table a loaded set
+            continue
+        cfg = CFG(b)
+        checks = calls_matching(b, lambda x: x.endswith('Table::columns_names_loaded'))
+        inits = calls_matching(b, lambda x: x.endswith('Table::init_column_names'))
+        n += 1
+        for (ib, it) in ing:
+            okk = bool(checks) and bool(inits) and \
+                any(cfg.can_reach(cb.id, ib.id) for (cb, ct) in checks) and \
+                any(cfg.can_reach(nb.id, ib.id) for (nb, nt) in inits)
+            ctx.check('ORD-12', '%s|names-loaded-before-append' % b.name, okk,
+                      'columns_names_loaded / init_column_names precede the append (%d checks, %d inits)'
+                      % (len(checks), len(inits)), where(it))
+    ctx.require(n >= 2, 'ORD-12: fewer than 2 appending functions in InnerLocustDB (%d)' % n)
 
 
 def ord7_catalogue_rows_in_same_segment(ctx):
@@ -471,6 +540,17 @@ def ord7_catalogue_rows_in_same_segment(ctx):
                                n.endswith('std::thread::spawn')) for cb in P.closures_in_text(t.func))]
     ctx.require(maps, 'ORD-7: the WAL spawn (Option::map closure) not found')
     applies = calls_matching(F, lambda n: n.endswith('Table::ingest_homogeneous'))
+    # every copy of the event buffer (the one that goes to the log) is taken after the inserts
+    clones = calls_matching(F, lambda n: n.endswith('EventBuffer as Clone>::clone'))
+    clone_sites = [(b, t) for (b, t) in clones] + \
+        [(b, t) for (b, t) in maps if any(calls_matching(cb, lambda n: n.endswith('EventBuffer as Clone>::clone'))
+                                          for cb in P.closures_in_text(t.func))]
+    ctx.require(clone_sites, 'ORD-7: the event buffer is never copied for the log segment')
+    for (cb_, ct) in clone_sites:
+        late = not any(cfg.can_reach(cb_.id, ib.id) for (ib, it) in ins)
+        ctx.check('ORD-7', 'ingest_efficient|log-copy-after-catalogue-rows', late,
+                  'the copy of the event buffer that is written to the log is taken after the '
+                  'catalogue rows were inserted', where(ct))
     for (b, t) in ins:
         ok = all(cfg.can_reach(b.id, m[0].id) and not cfg.can_reach(m[0].id, b.id) for m in maps) and \
             all(not cfg.can_reach(ab.id, b.id) for (ab, at) in applies)
